@@ -166,6 +166,51 @@ def check_superposition(case, rng):
     return [] if d <= tol(case, a, b, s) else ["superposition: T(d1)+T(d2) differs from T(d1+d2) by %.3e" % d]
 
 
+def small_signal_default(rng):
+    """documented default solver parameters (atol 1e-2, rtol 1e-6), T0 = 0, constant material, uniform outer flux
+    of decreasing magnitude: the step is linear, so one Newton iteration solves it whatever the magnitude, and
+    1D = 2D and additivity must hold in the RELATIVE sense at every magnitude (an absolute-tolerance shortcut
+    that skips the solve when the data are small breaks both, at the magnitudes where only one of the two
+    abstractions falls under the tolerance)"""
+    receiver, thermal, materials = tc.mods()
+    base = tc.gen_case(rng, ndim=2, inner="ins", outer="flux", steady=False, const_mat=True, nsteps=3)
+    base.T0, base.T0field, base.substep = 0.0, None, 1
+    base.nt = rng.choice([8, 16, 36])
+    base.bc_nt = base.nt
+    base.outer_data = np.zeros((len(base.times), base.nt, base.nz))
+    return small_signal_ladder(base), base
+
+
+def small_signal_ladder(base):
+    receiver, thermal, materials = tc.mods()
+    bad = []
+
+    def run(c):
+        tube, mat, fluid = tc.build(c)
+        return np.array(thermal.FiniteDifferenceImplicitThermalSolver().solve(tube, mat, fluid))
+
+    def with_q(q, ndim):
+        c = copy.deepcopy(base)
+        c.ndim = ndim
+        c.outer_data = np.full((len(c.times), c.nt, c.nz), q)
+        return c
+    for kexp in range(0, 14):
+        q = 2.0 ** -kexp
+        a2, a1 = run(with_q(q, 2)), run(with_q(q, 1))
+        m = float(np.max(np.abs(a2)))
+        d = float(np.max(np.abs(a2 - a1[..., None])))
+        if d > 1e-6 * m + 1e-300 or m == 0.0:
+            bad.append("default tolerances, outer flux %g: 2D differs from 1D by %.3e (max |T| %.3e)" % (q, d, m))
+            break
+        b1 = run(with_q(1.5 * q, 1))
+        s1 = run(with_q(2.5 * q, 1))
+        d = float(np.max(np.abs(s1 - a1 - b1)))
+        if d > 1e-6 * float(np.max(np.abs(s1))) + 1e-300:
+            bad.append("default tolerances, 1D: T(%g) + T(%g) differs from T(%g) by %.3e" % (q, 1.5 * q, 2.5 * q, d))
+            break
+    return bad
+
+
 def run(ctx):
     ctx.rule = ("random 2D/3D tubes with BC grid = tube grid; every shift s in 1..nt-1 (quick: two shifts per case); "
                 "axisymmetric / axially uniform projections for 1D-2D-3D agreement; sums of two data sets for "
@@ -214,6 +259,11 @@ def run(ctx):
                          "outer": c.outer, "shifts": shifts, "failures": [b[1] for b in bad[:2]]})
         for what, detail, extra in bad:
             viol.append((c, what, detail, extra))
+    for n in range(2 if ctx.quick() else 10):
+        bad, c = small_signal_default(rng)
+        ctx.case(("small-signal-default", n), nontrivial=True, tag="real/small-signal/default-tolerances")
+        for m in bad:
+            viol.append((c, "small-signal", m, {}))
     ctx.obligation("the real solver completed on at least 80% of the generated cases (a check that skips everything proves nothing)",
                    nraised * 5 <= n_real, "%d of %d raised" % (nraised, n_real))
     if nraised * 5 > n_real:
@@ -242,6 +292,8 @@ def replay(obj):
         bad = check_rotation_coarse(c, r["factor"], r["shift"])
     elif r["check"] == "abstraction":
         bad = check_abstractions(c)
+    elif r["check"] == "small-signal":
+        bad = small_signal_ladder(c)
     else:
         bad = check_superposition(c, random.Random(0))
     for m in bad:
